@@ -375,7 +375,17 @@ for job in jobs:
   r = {}
   try:
     cls = getattr(mod(job['module']), job['cls'])
-    a = cls(**job['kwargs'])
+    def build(v):
+      # nested layer arguments (ParallelCombination, Aggregation): {'__layer__': [module, class, kwargs]}
+      if isinstance(v, dict) and '__layer__' in v:
+        m_, c_, k_ = v['__layer__']
+        return getattr(mod(m_), c_)(**build(k_))
+      if isinstance(v, dict):
+        return {k: build(x) for k, x in v.items()}
+      if isinstance(v, list):
+        return [build(x) for x in v]
+      return v
+    a = cls(**build(job['kwargs']))
     conf = a.get_config()
     with keras.utils.custom_object_scope(custom):
       b = cls.from_config(dict(conf))
@@ -636,6 +646,18 @@ def configs(tier, rng):
   jobs.append(('registry', {}))
   nat = [dict(module=m, cls=cname, kwargs=kw) for (m, cname), lst in ROUNDTRIPS.items() for kw in lst]
   nat += [dict(lf) for lf in LAYER_FUNCTIONS]
+  # layers holding other layers: sublayers with auto-generated names, and DISTINCT sublayers sharing one explicit name
+  L_ = lambda m, c, **k: {'__layer__': [m, c, k]}
+  for names in ((None, None, None), ('calibrator', 'calibrator', 'calibrator')):
+    subs = [L_('pwl_calibration_layer', 'PWLCalibration', input_keypoints=[0.0, 0.5, 1.0], output_min=0.0, output_max=1.0,
+               monotonicity='increasing', **({'name': names[0]} if names[0] else {})),
+            L_('pwl_calibration_layer', 'PWLCalibration', input_keypoints=[0.0, 0.25, 0.5, 1.0],
+               **({'name': names[1]} if names[1] else {})),
+            L_('pwl_calibration_layer', 'PWLCalibration', input_keypoints=[0.0, 1.0], output_min=-1.0,
+               **({'name': names[2]} if names[2] else {}))]
+    for single in (True, False):
+      nat.append(dict(module='parallel_combination_layer', cls='ParallelCombination',
+                      kwargs=dict(calibration_layers=subs, single_output=single), input_shape=[None, 3]))
   jobs.append(('native_roundtrip', dict(jobs=nat)))
   return jobs
 
